@@ -3,7 +3,7 @@ NEXT Next
 CONSTANTS
   NS = 1
   NT = 4
-  Vals <- MCValsFull
+  Vals <- MCValsFour
   TagA <- MCTagA
   TagB <- MCTagB
   R = 2
